@@ -75,6 +75,10 @@ def run(ctx: core.Ctx) -> int:
         c = E.gen_pattern_tf_case(rng, ctx)
         c["precalc"] = rng.random() < 0.4
         cases.append(c)
+    for k in range(ctx.n(24, 240)):
+        c = E.gen_pattern_base_case(rng, ctx, k)
+        c["precalc"] = rng.random() < 0.4
+        cases.append(c)
     for i, c in enumerate(cases):
         ctx.count("eval_falsifier")
         falsify(ctx, c)
